@@ -208,6 +208,10 @@ const HOSTILE_PROGRAMS: &[(&str, &str)] = &[
     ("(module) @_m { let l = (plus) let m = (plus \"a\") let k = (not) }", "pass\n"),
     ("(module) @_m { let l = (format \"{} {}\" 1) }", "pass\n"),
     ("(module) @_m { let l = (format \"{\" 1) }", "pass\n"),
+    ("(module) @_m { node n attr (n) v = (format \"\u{2192} {}\" 1) }", "pass\n"),
+    ("(module) @_m { node n attr (n) v = (format \"\u{e9}{}\u{65e5}{}\" 1 2), w = (format \"\u{1f600}{{{}}}\" 3) }", "pass\n"),
+    ("(module) @_m { node n attr (n) v = (format \"\u{2192}{x\" 1) }", "pass\n"),
+    ("(module) @_m { node n attr (n) v = (replace \"a\u{e9}b\" \"\u{e9}\" \"$0\u{65e5}\"), w = (join [\"\u{e9}\", \"\"] \"\u{2192}\") }", "pass\n"),
     ("(module) @_m { let l = (format \"}\" 1) }", "pass\n"),
     ("(module) @_m { let l = (replace \"a\" \"(\" \"b\") }", "pass\n"),
     ("(module) @_m { let l = (named-child-index #null) }", "pass\n"),
@@ -366,6 +370,32 @@ fn run_exec(runner: &mut Runner, rep_local: &mut Report, text: &str, source: &st
     };
     let tree = parse_python(source);
     out.counts.push(format!("tree-has-error:{}", tree.root_node().has_error()));
+    if tree.root_node().has_error() {
+        // the CLI renders these when a source does not parse: plain and pretty must return text as well
+        let r = catch_unwind(AssertUnwindSafe(|| {
+            let errs = tree_sitter_graph::parse_error::ParseError::all(&tree);
+            let mut n = 0;
+            for e in errs.iter().take(8) {
+                let a = format!("{}", e.display(Path::new("test.py"), source));
+                let b = format!("{}", e.display_pretty(Path::new("test.py"), source));
+                if a.is_empty() || b.is_empty() {
+                    n += 1000;
+                }
+                n += 1;
+            }
+            let _ = tree_sitter_graph::parse_error::ParseError::first(&tree);
+            n
+        }));
+        match r {
+            Err(_) => out.fails.push(("impl-panic".into(), format!("C05 discovering or rendering the syntax errors of a source panics [stream={}]", stream), base.clone())),
+            Ok(n) => {
+                if n >= 1000 {
+                    out.fails.push(("direct".into(), "C05 a syntax error of a source renders as empty text".into(), base.clone()));
+                }
+                out.counts.push("rendered-source-syntax-errors".into());
+            }
+        }
+    }
     for lazy in [false, true] {
         let mode = if lazy { "lazy" } else { "strict" };
         let r = catch_unwind(AssertUnwindSafe(|| {
